@@ -179,10 +179,36 @@ func replayFailure(w *world, f *failure) (bool, string) {
 	return outcomeConfirms(f.Kind, f.Tag, outcome), outcome + "\n" + tailLines(out, 25)
 }
 
+// repoIsRecordedTree: the checkout under check is clean and its tree is the one recorded in
+// /verif/REPO_TREE (written by tools_manifest.py when the harnesses were last brought in line).
+func repoIsRecordedTree() bool {
+	rec, err := os.ReadFile(filepath.Join(verifRoot, "REPO_TREE"))
+	if err != nil {
+		return false
+	}
+	out, err := exec.Command("git", "-C", repoDir, "status", "--porcelain", "--untracked-files=no").Output()
+	if err != nil || len(strings.TrimSpace(string(out))) > 0 {
+		return false
+	}
+	tree, err := exec.Command("git", "-C", repoDir, "rev-parse", "HEAD^{tree}").Output()
+	if err != nil {
+		return false
+	}
+	return strings.TrimSpace(string(tree)) == strings.TrimSpace(string(rec))
+}
+
 func outcomeConfirms(kind, tag, outcome string) bool {
 	switch kind {
 	case "assert":
-		return outcome == "assert:"+tag
+		if outcome == "assert:"+tag {
+			return true
+		}
+		// independence of a Copy() result: the assertion names the first shared cell it meets, and
+		// the native walk may meet another cell of the same copy first; the same assertion failed
+		if i := strings.Index(tag, "-shares"); i > 0 && strings.HasPrefix(outcome, "assert:"+tag[:i+len("-shares")]) {
+			return true
+		}
+		return false
 	case "write":
 		if outcome == "race" {
 			return true
@@ -334,6 +360,19 @@ func cmdCheck(args []string) {
 	w, err := loadWorld(nil)
 	if err != nil {
 		fail(err)
+	}
+	var droppedList []string
+	for f, e := range droppedHarnessFiles {
+		droppedList = append(droppedList, filepath.Base(f)+": "+e)
+	}
+	sort.Strings(droppedList)
+	for _, s := range droppedList {
+		fmt.Printf("NOTE harness file left out (does not compile against this tree): %s\n", s)
+	}
+	if len(droppedList) > 0 && repoIsRecordedTree() {
+		// on the tree the harnesses were written for, a harness that does not compile is a defect
+		// of the machinery, not something to step around
+		fail(fmt.Errorf("harness files do not compile against the recorded tree (REPO_TREE): %s", strings.Join(droppedList, "; ")))
 	}
 	b := bounds{MaxPaths: 4000, MaxSteps: 30_000_000, TimeoutMs: 10000, Workers: *workers, MaxSeconds: 240}
 	if *tier == "thorough" {
@@ -585,6 +624,7 @@ func cmdCheck(args []string) {
 		"bounds":                        b,
 		"solver":                        map[string]interface{}{"name": *solverName, "stats": sv},
 		"notes":                         allNotes,
+		"harness_files_left_out":        droppedList,
 		"native_replays":                replays,
 		"explanation":                   "bounded symbolic execution of the real SSA of /repo (rebuilt this run) with an SMT solver deciding every branch and obligation; see DESIGN.md",
 		"assumption_validation":         map[string]interface{}{"what": "A-PARSE/A-LEX/A-BOUNDARY: concrete layouts (VERIF_SEED) parsed by the real parser and compared with the stretch map", "seeds": stSeeds, "layouts_per_seed": stRounds, "positions_compared": stChecked, "mismatches": stMism},
